@@ -79,7 +79,9 @@ func (f *FlatNews) Write(p []byte) (int, error) {
 		return 0, fmt.Errorf("rename temporary file to final file: %v", err)
 	}
 
-	return len(p), os.WriteFile(f.filePath, f.data, 0644)
+	// The rename above has already put the complete new text in place; writing the file again in
+	// place would truncate it first and a crash in between would leave an empty message board.
+	return len(p), nil
 }
 
 func (f *FlatNews) Seek(offset int64, _ int) (int64, error) {
